@@ -160,7 +160,9 @@ func Gen(r *rand.Rand, p Profile) *Workload {
 			if back == 3 || i < 0 {
 				i = pick % len(reqs)
 			}
+			w.Mon.Injecting = true
 			q.Add(reqs[i].Key)
+			w.Mon.Injecting = false
 		}})
 	}
 	nj := p.MinJobs
